@@ -25,6 +25,7 @@ def parseAOp (j : Json) : P AsyncClient.Op := do
   match (← str (← nth l 0)) with
   | "made" => pure .connectionMade
   | "lost" => pure .connectionLost
+  | "close" => pure (.close ((← nat (← nth l 1)) != 0))
   | "exec" => pure (.execute (← parseAReq (← nth l 1)))
   | "reply" => pure (.reply (← nat (← nth l 1)) (← nat (← nth l 2)))
   | o => throw s!"bad async op {o}"
@@ -38,6 +39,7 @@ def jAEv : AsyncClient.Event → Json
   | .callback id t tag => jArr [Json.str "cb", jNat id, jNat t, jNat tag]
   | .errback id w => jArr [Json.str "eb", jNat id, Json.str (whyName w)]
   | .exc e => jArr [Json.str "exc", Json.str e.name]
+  | .tclose => jArr [Json.str "tclose"]
 
 def parseAEv (j : Json) : P AsyncClient.Event := do
   let l ← arr j
@@ -50,6 +52,7 @@ def parseAEv (j : Json) : P AsyncClient.Event := do
     | "notconn" => pure (.errback (← nat (← nth l 1)) .notConnected)
     | w => throw s!"bad errback kind {w}"
   | "exc" => pure (.exc .other)
+  | "tclose" => pure .tclose
   | o => throw s!"bad async event {o}"
 
 def jVerdict (x : Spec.Verdict) : Json :=
